@@ -228,6 +228,14 @@ def check(prog, rep):
     from ..rules_wrap import wrapper_rules
 
     wrapper_rules(prog, rep, parts=("reads",))
+    # what a windowed read sees is the addressed store's own rows: nothing derived from them is kept on the side or shared
+    from ..rules_store import instance_state
+
+    instance_state(prog, rep)
+    # the window query selects by bucketrow: a bucket's row keeps its number, ids are unique keys, timestamps keep their text form
+    from ..rules_store import ddl_facts
+
+    ddl_facts(prog, rep)
     pm = pred_memory(prog, rep)
     ps = pred_sqlite(prog, rep)
     pp = pred_peewee(prog, rep)
@@ -246,6 +254,11 @@ def check(prog, rep):
     from ..rules_codec import codec_peewee, codec_sqlite
 
     codec_sqlite(prog, rep)
+    # the clip loop assigns through the Event setters: what it assigns must be what is stored (no rejection of the slightly
+    # negative remainders rounding produces, no truncation)
+    from .c13 import duration_dispatch
+
+    duration_dispatch(prog, rep)
     codec_peewee(prog, rep)
     rep.floor("C03 obligations", len(rep.obligations), 22)
 
